@@ -30,6 +30,7 @@ func main() {
 	flag.Parse()
 
 	cases := fr.ExchangeCases(*tier, *seed)
+	cases = append(cases, fr.HandlerVariants(cases)...)
 	if *replay != "" {
 		var rp struct {
 			Name string `json:"name"`
